@@ -41,6 +41,7 @@ def universes(
     kinds=("str", "int", "ustr", "uint"),
     with_time=False,
     letters=None,
+    long_dim=0,
 ):
     n = draw(st.integers(min_dims, max_dims))
     if letters is None:
@@ -64,6 +65,9 @@ def universes(
                 while lens[i] in seen and lens[i] < max_len:
                     lens[i] += 1
                 seen.add(lens[i])
+    if long_dim and draw(st.integers(0, long_dim - 1)) == 0:
+        # one long dimension (years, vintages, products): item counts beyond any small-size threshold
+        lens[draw(st.integers(0, n - 1))] = draw(st.sampled_from([12, 16, 17, 24, 33, 48]))
     dims = []
     zero_used = False
     for k, (l, ln) in enumerate(zip(letters, lens)):
